@@ -13,6 +13,7 @@ type string = String.t     (* the extracted Coq `string` type shadows OCaml's; r
      hkx <sha384 0|1> <salt> <ikm>                                      psHkdfExtract model
      len12 <suite> <n> / len13 <n> <pad>                                protected record body length of an n-byte fragment
      skh <md5sha1|sha1|sha256|sha384|sha512> <cr> <sr> <params>         hash of the ServerKeyExchange signed content
+     ks13 <suite> <psk|-> <ecdhe|-> <th CH> <th CH..SH> <th ..sFin> <th ..cFin>   the schedule on transcript-hash values
      es13 <sha384 0|1> <offered psk|-> <msg,..>                          Early Secret + Handshake Secret salt for the PSK the ServerHello selects
      labels                                                             the spec's label table: role=hex ...
      dg <hash> <msg,..>                                                 hash of the concatenated messages
@@ -20,6 +21,7 @@ type string = String.t     (* the extracted Coq `string` type shadows OCaml's; r
    record tokens of hs12:  S:<c|s>:<seq>:<type>:<content>:<explicit nonce|->   seal with that side's write keys
                            F:<c|s>:<seq>:<explicit|->                          seal that side's Finished (spec verify_data)
                            O:<c|s>:<seq>:<type>:<record>                       CBC: open
+                           C:<c|s>:<seq>:<type>:<content>:<iv>:<padlen>        CBC: seal with this explicit IV / padding length
    record tokens of hs13:  S:<c|s>:<h|a>:<seq>:<type>:<content>:<pad>   F:<c|s>:<seq>:<pad>   O:<c|s>:<h|a>:<seq>:<record> *)
 
 let un = bytes_of_hex
@@ -84,6 +86,10 @@ let hs12_line ver suite ems secret cr sr msgs recs =
     let do_rec (t : string) = match String.split_on_char ':' t with
       | ["S"; side; seq; ctype; content; explicit] -> seal side (int_of_string seq) (n_of_int (int_of_string ctype)) (un content) (un explicit)
       | ["F"; side; seq; explicit] -> seal side (int_of_string seq) (n_of_int 22) (fin_msg side) (un explicit)
+      | ["C"; side; seq; ctype; content; iv; padlen] ->
+        (* CBC record made by the spec with an explicit IV and a padding length of the caller's choice *)
+        let (mk, key, _) = keys side in
+        hx (seal12_cbc s.s_mac mk key (un iv) (nat (int_of_string padlen)) (n_of_int (int_of_string seq)) (n_of_int (int_of_string ctype)) verb (un content))
       | ["O"; side; seq; ctype; record] ->
         let (mk, key, _) = keys side in
         (match open12_cbc s.s_mac mk key (n_of_int (int_of_string seq)) (n_of_int (int_of_string ctype)) verb (un record) with
@@ -144,7 +150,7 @@ let hs13_line suite psk isres ecdhe blen msgs recs =
     let m_es role = (match (if role then server_early_secret_model else client_early_secret_model) sha3 (opt psk) t.t_psk_selected with
                      | Ok st -> hx st.es_value | _ -> "rc") in
     let guard = guard ^ (if m_es false <> hx e.e_early || m_es true <> hx e.e_early then " MODEL<>SPEC[early " ^ m_es false ^ " " ^ m_es true ^ "]" else "") in
-    let body = String.concat " " (["sel=" ^ (if t.t_psk_selected then "1" else "0"); kv "early" e.e_early; kv "early_off" eo.e_early; kv "hs_salt" t.t_hs_salt;
+    let body = String.concat " " (["sel=" ^ (if t.t_psk_selected then "1" else "0"); "dhe=" ^ (if t.t_dhe_selected then "1" else "0"); kv "early" e.e_early; kv "early_off" eo.e_early; kv "hs_salt" t.t_hs_salt;
                         kv "binder_key" eo.e_binder_key; kv "binder" t.t_binder; kv "c_e" eo.e_c_e_traffic;
                         kv "hs" e.e_handshake; kv "c_hs" e.e_c_hs_traffic; kv "s_hs" e.e_s_hs_traffic; kv "master" e.e_master;
                         kv "c_ap" e.e_c_ap_traffic; kv "s_ap" e.e_s_ap_traffic; kv "exp" e.e_exp_master; kv "res" e.e_res_master;
@@ -180,6 +186,18 @@ let () = iter_lines (fun l ->
     (match suite_of (n_of_hex suite) with Some s -> string_of_int (int_of_nat (body_len12 s (nat (int_of_string nn)))) | None -> "UNKNOWN-SUITE")
   | ["len13"; nn; pad] -> string_of_int (int_of_nat (body_len13 (nat (int_of_string nn)) (nat (int_of_string pad))))
   | ["skh"; name; cr; sr; params] -> hx (hash_by_name name (ske_signed_content (un cr) (un sr) (un params)))
+  | ["ks13"; suite; psk; ecdhe; th_ch; th_sh; th_sfin; th_cfin] ->
+    (* RFC 8446 7.1 / 7.3 on given transcript hashes (for the direct calls of the library's schedule stages) *)
+    (match suite_of (n_of_hex suite) with
+     | None -> "UNKNOWN-SUITE"
+     | Some su ->
+       let h = su.s_prf in
+       let opt x = if x = "-" then None else Some (un x) in
+       let e = schedule13 h (opt psk) false (opt ecdhe) (un th_ch) (un th_sh) (un th_sfin) (un th_cfin) in
+       let k nm sec = kv (nm ^ "_key") (traffic_key h sec su.s_keylen) ^ " " ^ kv (nm ^ "_iv") (traffic_iv h sec) in
+       String.concat " " [kv "hs" e.e_handshake; kv "c_hs" e.e_c_hs_traffic; kv "s_hs" e.e_s_hs_traffic; k "c_hs" e.e_c_hs_traffic; k "s_hs" e.e_s_hs_traffic;
+                          kv "master" e.e_master; kv "c_ap" e.e_c_ap_traffic; kv "s_ap" e.e_s_ap_traffic; k "c_ap" e.e_c_ap_traffic; k "s_ap" e.e_s_ap_traffic;
+                          kv "res" e.e_res_master])
   | ["es13"; sha3; psk; msgs] ->
     (* Early Secret / Handshake Secret salt for the PSK the ServerHello selects (sessions that did not complete) *)
     let h = if sha3 = "1" then SHA384 else SHA256 in
